@@ -103,4 +103,493 @@ Verdict(a, nat, stage, ar) ==
     [] OTHER                      -> Refuse(stage, IF HasReply(a) THEN ReplyOf(a) ELSE nat)
 Rejects == {"permreject", "tempreject"}
 
+
+-----------------------------------------------------------------------------
+(*                                   SPF                                   *)
+SpfResults == {"pass", "none", "neutral", "fail", "softfail", "temperror", "permerror"}
+(* DNS situations that yield each result (RFC 7208 4.3-4.7, 5) *)
+HowOf(r) == CASE r = "pass"      -> {"ip", "all"}
+              [] r = "fail"      -> {"all", "ipmiss"}
+              [] r = "softfail"  -> {"all"}
+              [] r = "neutral"   -> {"all", "fallthrough"}
+              [] r = "none"      -> {"nxdomain", "notxt", "othertxt"}
+              [] r = "permerror" -> {"two", "syntax"}
+              [] r = "temperror" -> {"servfail", "include"}
+ResHow == UNION {{<<r, h>> : h \in HowOf(r)} : r \in SpfResults}
+
+Helo   == "helo.example"
+MfDom(s) == CASE s = "plain" -> "mf.example"
+              [] s = "upper" -> "MF.EXAMPLE"
+              [] s = "idn"   -> "xn--bcher-kva.example"   \* sent as a U-label (SMTPUTF8)
+              [] OTHER       -> ""
+SenderAddr(s) == CASE s = "null" -> ""
+                   [] s = "upper" -> "BOUNCE@MF.EXAMPLE"
+                   [] OTHER -> "bounce@" \o MfDom(s)
+(* lower-case A-label form of the MAIL FROM domain *)
+MfNorm(s) == IF s = "upper" THEN "mf.example" ELSE MfDom(s)
+(* the identity SPF evaluates (RFC 7208 2.4): MAIL FROM domain, HELO for the null reverse-path *)
+SpfIdentity(s) == IF s = "null" THEN Helo ELSE MfNorm(s)
+
+DmKinds == {"norecord", "none", "quarantine", "reject", "sp_none", "sp_reject", "sub_p",
+            "multi", "servfail", "nofrom", "twofrom"}
+(* spf.md "DMARC override": the sender domain has a DMARC record with a     *)
+(* quarantine or reject policy (for that domain: sp for a subdomain)        *)
+DeferPolicies == {"quarantine", "reject", "sp_reject", "sub_p"}
+(* the documentation does not say what a failed policy lookup or a header   *)
+(* without exactly one author means for the override: either way is allowed *)
+FreeDm == {"servfail", "nofrom", "twofrom"}
+FromShape(dm) == IF dm \in {"nofrom", "twofrom"} THEN dm ELSE "one"
+FromDomOfDm(dm) == IF dm \in {"sp_none", "sp_reject", "sub_p"} THEN "sub.from.example" ELSE "from.example"
+DmarcTxt(dm) == CASE dm = "none"       -> <<"v=DMARC1; p=none">>
+                  [] dm = "quarantine" -> <<"v=DMARC1; p=quarantine">>
+                  [] dm = "reject"     -> <<"v=DMARC1; p=reject">>
+                  [] dm = "twofrom"    -> <<"v=DMARC1; p=reject">>
+                  [] dm = "sp_none"    -> <<"v=DMARC1; p=reject; sp=none">>
+                  [] dm = "sp_reject"  -> <<"v=DMARC1; p=none; sp=reject">>
+                  [] dm = "sub_p"      -> <<"v=DMARC1; p=quarantine">>
+                  [] dm = "multi"      -> <<"v=DMARC1; p=reject", "v=DMARC1; p=none">>
+                  [] OTHER             -> <<>>
+
+Early(i)   == i.early = "yes"                  \* spf.md: enforce_early default no
+SpfSkip(i) == i.conn \in {"unix", "local"}     \* no client IP: nothing to evaluate (from the code)
+Defer(i)   == ~Early(i) /\ i.dm \in DeferPolicies
+
+(* documented defaults (spf.md): fail quarantine, permerror / temperror reject, others ignore *)
+SpfDefault(D, r) == CASE r = "fail" -> "quarantine"
+                      [] r \in {"permerror", "temperror"} ->
+                           (IF "ErrDefaultsIgnore" \in D THEN "ignore" ELSE "reject")
+                      [] OTHER -> "ignore"
+SpfEff(D, i) == IF i.act = "default" THEN SpfDefault(D, i.res) ELSE i.act
+(* the check's own reply: a temporary error is a temporary refusal *)
+SpfNatural(r) == IF r = "temperror" THEN [code |-> 451, enh |-> "4.7.23"]
+                 ELSE [code |-> 550, enh |-> "5.7.23"]
+SpfStage(i) == IF Early(i) THEN (IF i.place = "dest" THEN "rcpt" ELSE "mail") ELSE "body"
+SpfEntry(i) == [m |-> "spf", v |-> i.res,
+                a |-> IF i.sender = "null" THEN "" ELSE MfNorm(i.sender), b |-> Helo]
+SpfAr(i) == IF SpfSkip(i) THEN <<>> ELSE <<SpfEntry(i)>>
+
+(* what check.spf does on its own *)
+SpfOwn(D, i) ==
+  IF SpfSkip(i) \/ i.res = "pass" \/ Defer(i) THEN Accept(SpfAr(i))
+  ELSE Verdict(SpfEff(D, i), SpfNatural(i.res), SpfStage(i), SpfAr(i))
+
+RuleSpf(D, i) == SpfOwn(D, i)
+
+-----------------------------------------------------------------------------
+(*                                   DKIM                                  *)
+(* Signature kinds.  Every one is a real DKIM-Signature field made by the   *)
+(* harness with go-msgauth (2048-bit RSA unless said otherwise), h= From    *)
+(* Subject To Date unless said otherwise:                                   *)
+(*   pass      valid                                                        *)
+(*   passlc    valid, h= spelled in lower case                              *)
+(*   ed        valid, Ed25519                                               *)
+(*   nosubj    valid, Subject not signed                                    *)
+(*   noto      valid, To not signed                                         *)
+(*   badbody   made over another body (body hash does not verify)           *)
+(*   badsig    made over another Subject (signature does not verify)        *)
+(*   nokey     no key record (NXDOMAIN)                                     *)
+(*   revoked   key record with empty p=                                     *)
+(*   shortkey  512-bit RSA key (RFC 8301: not valid)                        *)
+(*   expired   x= in the past                                               *)
+(*   temp      the key lookup fails temporarily (SERVFAIL)                  *)
+(*   malformed the field is not a tag list                                  *)
+(*   lentag    carries l= (signs a body subset)                             *)
+KindSeq == <<"pass", "passlc", "ed", "nosubj", "noto", "badbody", "badsig", "nokey", "revoked",
+             "shortkey", "expired", "temp", "malformed", "lentag">>
+Kinds == Range(KindSeq)
+NKinds == Len(KindSeq)
+SigDoms == <<"signer.example", "other.example", "signer.example">>   \* by position
+
+(* required_fields *)
+ReqArgs(r) == CASE r = "from" -> <<"From">> [] r = "fst" -> <<"From", "Subject", "To">> [] OTHER -> <<>>
+ReqSet(r) == CASE r = "from" -> {"From"} [] r = "fst" -> {"From", "Subject", "To"} [] OTHER -> {"From", "Subject"}
+SignedBy(k) == CASE k = "nosubj" -> {"From", "To", "Date"}
+                 [] k = "noto"   -> {"From", "Subject", "Date"}
+                 [] OTHER        -> {"From", "Subject", "To", "Date"}
+Verifies(k) == k \in {"pass", "passlc", "ed", "nosubj", "noto"}
+(* dkim.md: a signature that lacks a required field is invalid *)
+Good(k, r) == Verifies(k) /\ ReqSet(r) \subseteq SignedBy(k)
+IsTemp(k) == k = "temp"
+FailOpen(i) == i.failopen = "yes"              \* dkim.md: default no
+HasGood(i) == \E n \in DOMAIN i.sigs : Good(i.sigs[n].k, i.req)
+HasTemp(i) == \E n \in DOMAIN i.sigs : IsTemp(i.sigs[n].k)
+(* a signature that is known to be unusable (not merely unverifiable right now) *)
+HasBroken(i) == \E n \in DOMAIN i.sigs : ~Good(i.sigs[n].k, i.req) /\ ~IsTemp(i.sigs[n].k)
+
+DkimEff(i) == IF i.act = "default" THEN "ignore" ELSE i.act   \* dkim.md: both default ignore
+DkimNatural == [code |-> 550, enh |-> "5.7.20"]
+DkimTempReply == [code |-> 421, enh |-> "4.7.20"]
+
+(* result value per signature as the code reports it (RFC 8601 2.7.1) *)
+DkimValue(k, r) == CASE Good(k, r) -> "pass"
+                     [] IsTemp(k) -> "temperror"
+                     [] k \in {"badbody", "badsig", "lentag"} -> "fail"
+                     [] OTHER -> "permerror"
+DkimEntry(s, r) == [m |-> "dkim", v |-> DkimValue(s.k, r),
+                    a |-> IF s.k = "malformed" THEN "" ELSE s.d,
+                    b |-> IF s.k = "malformed" THEN "" ELSE "@" \o s.d]
+DkimAr(i) == IF i.sigs = <<>> THEN <<[m |-> "dkim", v |-> "none", a |-> "", b |-> ""]>>
+             ELSE [n \in DOMAIN i.sigs |-> DkimEntry(i.sigs[n], i.req)]
+
+DkimOwn(D, i) ==
+  IF i.sigs = <<>> THEN Verdict(DkimEff(i), DkimNatural, "body", DkimAr(i))
+  ELSE IF HasTemp(i) /\ ~FailOpen(i) THEN Refuse("body", DkimTempReply)       \* fail closed: 4xx
+  ELSE IF HasGood(i) THEN Accept(DkimAr(i))
+  ELSE IF HasBroken(i) \/ "FailOpenBroken" \in D THEN Verdict(DkimEff(i), DkimNatural, "body", DkimAr(i))
+  ELSE Accept(DkimAr(i))      \* fail_open yes and nothing but temporary errors: accept the message
+
+RuleDkim(D, i) ==
+  IF i.subset # "absent" /\ "NoBodySubset" \in D THEN CfgError ELSE DkimOwn(D, i)
+
+-----------------------------------------------------------------------------
+(*              check.spf + check.dkim + DMARC on one message              *)
+(* joint rows: [tab |-> "joint", res, how, act, early, sender, al, dm, dk]  *)
+(*   al  the From domain is the SPF identity's domain (else from.example)   *)
+(*   dk  "nosig" | "pass_al" valid signature of the From domain | "pass_un" *)
+(*       valid signature of an unrelated domain | "bad_al" | "temp_al"      *)
+(* check.spf: act for res (decoys elsewhere); check.dkim: fail_open yes,    *)
+(* actions default; pipeline "dmarc yes".                                    *)
+JFromDom(i) == IF i.al THEN SpfIdentity(i.sender) ELSE "from.example"
+JSigs(i) == CASE i.dk = "nosig"   -> <<>>
+              [] i.dk = "pass_al" -> <<[k |-> "pass", d |-> JFromDom(i)]>>
+              [] i.dk = "pass_un" -> <<[k |-> "pass", d |-> "other.example"]>>
+              [] i.dk = "bad_al"  -> <<[k |-> "badbody", d |-> JFromDom(i)]>>
+              [] i.dk = "temp_al" -> <<[k |-> "temp", d |-> JFromDom(i)]>>
+JDkimView(i) == [tab |-> "dkim", sub |-> "joint", sigs |-> JSigs(i), act |-> "default",
+                 failopen |-> "yes", req |-> "default", subset |-> "absent"]
+JSpfView(i) == [tab |-> "spf", sub |-> "joint", res |-> i.res, how |-> i.how, act |-> i.act,
+                early |-> i.early, sender |-> i.sender, dm |-> i.dm, place |-> "global", conn |-> "tcp4"]
+JFound(i)   == i.dm \in {"none", "quarantine", "reject"}
+JDkimAl(i)  == i.dk = "pass_al"
+JSpfAl(i)   == i.res = "pass" /\ i.al
+JDkimTemp(i) == i.dk = "temp_al"
+(* RFC 7489 3.1 / 6.6.2 as in Dmarc.tla (C07) for this input space *)
+JDmarcV(i) == IF ~JFound(i) THEN "none"
+              ELSE IF JDkimTemp(i) /\ ~JDkimAl(i) /\ ~JSpfAl(i) THEN "temperror"
+              ELSE IF ~JDkimAl(i) /\ i.res = "temperror" THEN "temperror"
+              ELSE IF JDkimAl(i) \/ JSpfAl(i) THEN "pass" ELSE "fail"
+JDmarcEntry(i) == [m |-> "dmarc", v |-> JDmarcV(i), a |-> JFromDom(i), b |-> ""]
+JAr(i) == <<SpfEntry(JSpfView(i))>> \o DkimAr(JDkimView(i)) \o <<JDmarcEntry(i)>>
+RuleJoint(D, i) ==
+  LET own == SpfOwn(D, JSpfView(i))
+      v   == JDmarcV(i)
+      enforce == v \in {"fail", "temperror"}
+  IN IF own.class \in Rejects THEN own
+     ELSE IF enforce /\ i.dm = "reject"
+          THEN Refuse("body", IF v = "temperror" THEN [code |-> 450, enh |-> "4.7.1"]
+                              ELSE [code |-> 550, enh |-> "5.7.1"])
+     ELSE IF own.class = "quarantine" \/ (enforce /\ i.dm = "quarantine") THEN Quarantine(JAr(i))
+     ELSE Accept(JAr(i))
+
+-----------------------------------------------------------------------------
+RuleD(D, i) == CASE i.tab = "spf"  -> RuleSpf(D, i)
+                 [] i.tab = "dkim" -> RuleDkim(D, i)
+                 [] OTHER          -> RuleJoint(D, i)
+Rule(i) == RuleD({}, i)
+AsIs(i) == RuleD(Devs, i)
+
+-----------------------------------------------------------------------------
+(* The property, one named predicate per clause of the statement.           *)
+ArOf(o, m) == SelectSeq(o.ar, LAMBDA e : e.m = m)
+Delivered(o) == o.cfg = "ok" /\ o.class \in {"accept", "quarantine"}
+(* number of entries of sequence s equal to x *)
+Count(s, x) == Cardinality({n \in DOMAIN s : s[n] = x})
+BagEq(s, t) == Len(s) = Len(t) /\ \A n \in DOMAIN s : Count(s, s[n]) = Count(t, s[n])
+
+(* class a check must produce for effective action a with natural reply nat *)
+ClassFor(a, nat) == CASE ActClass(a) = "ignore"     -> "accept"
+                      [] ActClass(a) = "quarantine" -> "quarantine"
+                      [] OTHER -> (IF (IF HasReply(a) THEN ReplyOf(a) ELSE nat).code < 500
+                                   THEN "tempreject" ELSE "permreject")
+(* "reject <code> <enhanced code>": the reply is the configured one *)
+ReplyAsConfigured(a, o) == (ActClass(a) = "reject" /\ HasReply(a)) =>
+                              (o.code = ReplyOf(a).code /\ o.enh = ReplyOf(a).enh)
+
+IsSpf(i)  == i.tab = "spf"
+IsDkim(i) == i.tab = "dkim"
+IsJoint(i) == i.tab = "joint"
+(* SPF rows in which the docs fix what the check does on its own *)
+SpfDecided(i) == IsSpf(i) /\ ~SpfSkip(i) /\ i.res # "pass" /\ ~(~Early(i) /\ i.dm \in FreeDm)
+
+P_ConfigAccepted(i, o) == o.cfg = "ok"          \* every row is a documented configuration
+P_SpfPassNoAction(i, o) == (IsSpf(i) /\ i.res = "pass") => o.class = "accept"
+P_SpfNoIpNoAction(i, o) == (IsSpf(i) /\ SpfSkip(i)) => o.class = "accept"
+(* the configured action (documented default when the directive is absent), exactly *)
+P_SpfAction(i, o) == (SpfDecided(i) /\ ~Defer(i)) =>
+                        /\ o.class = ClassFor(SpfEff({}, i), SpfNatural(i.res))
+                        /\ ReplyAsConfigured(SpfEff({}, i), o)
+(* spf.md: no action when the sender domain publishes a quarantine / reject DMARC policy *)
+P_SpfDeferred(i, o) == (SpfDecided(i) /\ Defer(i)) => o.class = "accept"
+(* where docs are silent about the override the outcome is one of the two *)
+P_SpfFreeDm(i, o) == (IsSpf(i) /\ ~SpfSkip(i) /\ i.res # "pass" /\ ~Early(i) /\ i.dm \in FreeDm) =>
+                        o.class \in {"accept", ClassFor(SpfEff({}, i), SpfNatural(i.res))}
+(* enforce_early: the decision is made before the message body is received *)
+P_SpfStage(i, o) == (IsSpf(i) /\ o.class \in Rejects) =>
+                        IF Early(i) THEN o.stage \in {"mail", "rcpt"} ELSE o.stage = "body"
+(* "Authentication-Results field is generated irregardless of status": one  *)
+(* entry, the real outcome, the identity that was evaluated                 *)
+P_SpfReported(i, o) == (IsSpf(i) /\ ~SpfSkip(i) /\ Delivered(o)) =>
+                          LET es == ArOf(o, "spf") IN
+                            /\ Len(es) = 1
+                            /\ es[1].v = i.res
+                            /\ IF i.sender = "null" THEN es[1].a = "" /\ es[1].b = Helo
+                               ELSE es[1].a = MfNorm(i.sender)
+
+P_DkimNoSig(i, o) == (IsDkim(i) /\ i.sigs = <<>>) =>
+                        /\ o.class = ClassFor(DkimEff(i), DkimNatural)
+                        /\ ReplyAsConfigured(DkimEff(i), o)
+(* fail_open no: a temporary error refuses the message with a 4xx reply *)
+P_DkimTempClosed(i, o) == (IsDkim(i) /\ HasTemp(i) /\ ~FailOpen(i)) => o.class = "tempreject"
+(* a valid signature: broken_sig_action is for messages without one *)
+P_DkimGood(i, o) == (IsDkim(i) /\ HasGood(i) /\ (~HasTemp(i) \/ FailOpen(i))) => o.class = "accept"
+(* no valid signature (and no temporary error): broken_sig_action, exactly *)
+P_DkimBroken(i, o) == (IsDkim(i) /\ i.sigs # <<>> /\ ~HasGood(i) /\ ~HasTemp(i)) =>
+                        /\ o.class = ClassFor(DkimEff(i), DkimNatural)
+                        /\ ReplyAsConfigured(DkimEff(i), o)
+(* fail_open yes: a temporary error must not get the message refused; when  *)
+(* another signature is definitely broken broken_sig_action may apply       *)
+P_DkimFailOpen(i, o) == (IsDkim(i) /\ HasTemp(i) /\ FailOpen(i) /\ ~HasGood(i)) =>
+                          IF HasBroken(i) THEN o.class \in {"accept", ClassFor(DkimEff(i), DkimNatural)}
+                          ELSE o.class \notin Rejects
+P_DkimStage(i, o) == (IsDkim(i) /\ o.class \in Rejects) => o.stage = "body"
+(* every signature is listed with its true result and its d=: pass exactly  *)
+(* for the valid ones, temperror for unavailable keys, a failing value else *)
+VClass(v) == CASE v = "pass" -> "pass" [] v = "temperror" -> "temperror"
+               [] v \in {"fail", "permerror", "neutral", "policy"} -> "bad" [] OTHER -> "other:" \o v
+DkimTruth(sigs, r) == [n \in DOMAIN sigs |->
+                         <<VClass(DkimValue(sigs[n].k, r)), IF sigs[n].k = "malformed" THEN "" ELSE sigs[n].d>>]
+P_DkimReported(i, o) == (IsDkim(i) /\ Delivered(o)) =>
+                          LET es == ArOf(o, "dkim") IN
+                            IF i.sigs = <<>> THEN Len(es) = 1 /\ es[1].v = "none"
+                            ELSE BagEq([n \in DOMAIN es |-> <<VClass(es[n].v), es[n].a>>], DkimTruth(i.sigs, i.req))
+
+(* joint rows: the verdict of the composition; an SPF temperror on an       *)
+(* identity that is not aligned may be refused either way (as in C07)       *)
+JAllowed(i) ==
+  LET r == Rule(i) IN
+    IF r.class = "tempreject" /\ r.stage = "body" /\ r.code = 450 /\ i.res = "temperror"
+       /\ ~i.al /\ ~JDkimTemp(i)
+    THEN {"tempreject", "permreject"} ELSE {r.class}
+P_JointVerdict(i, o) == IsJoint(i) => o.class \in JAllowed(i)
+(* spf.md: with the action deferred, DMARC takes the necessary action using the SPF result *)
+P_JointDeferredEnforced(i, o) ==
+  (IsJoint(i) /\ Defer(JSpfView(i)) /\ i.res # "pass" /\ ~JDkimAl(i) /\ ~JDkimTemp(i)) => o.class # "accept"
+P_JointReported(i, o) == (IsJoint(i) /\ Delivered(o)) =>
+                           /\ BagEq(ArOf(o, "spf"), <<SpfEntry(JSpfView(i))>>)
+                           /\ BagEq(ArOf(o, "dkim"), DkimAr(JDkimView(i)))
+                           /\ LET ds == ArOf(o, "dmarc") IN Len(ds) = 1 /\ ds[1].v = JDmarcV(i)
+
+PredNames == {"ConfigAccepted", "SpfPassNoAction", "SpfNoIpNoAction", "SpfAction", "SpfDeferred",
+              "SpfFreeDm", "SpfStage", "SpfReported",
+              "DkimNoSig", "DkimTempClosed", "DkimGood", "DkimBroken", "DkimFailOpen", "DkimStage",
+              "DkimReported", "JointVerdict", "JointDeferredEnforced", "JointReported"}
+Holds(n, i, o) ==
+  CASE n = "ConfigAccepted"   -> P_ConfigAccepted(i, o)
+    [] n = "SpfPassNoAction"  -> P_SpfPassNoAction(i, o)
+    [] n = "SpfNoIpNoAction"  -> P_SpfNoIpNoAction(i, o)
+    [] n = "SpfAction"        -> P_SpfAction(i, o)
+    [] n = "SpfDeferred"      -> P_SpfDeferred(i, o)
+    [] n = "SpfFreeDm"        -> P_SpfFreeDm(i, o)
+    [] n = "SpfStage"         -> P_SpfStage(i, o)
+    [] n = "SpfReported"      -> P_SpfReported(i, o)
+    [] n = "DkimNoSig"        -> P_DkimNoSig(i, o)
+    [] n = "DkimTempClosed"   -> P_DkimTempClosed(i, o)
+    [] n = "DkimGood"         -> P_DkimGood(i, o)
+    [] n = "DkimBroken"       -> P_DkimBroken(i, o)
+    [] n = "DkimFailOpen"     -> P_DkimFailOpen(i, o)
+    [] n = "DkimStage"        -> P_DkimStage(i, o)
+    [] n = "DkimReported"     -> P_DkimReported(i, o)
+    [] n = "JointVerdict"     -> P_JointVerdict(i, o)
+    [] n = "JointDeferredEnforced" -> P_JointDeferredEnforced(i, o)
+    [] n = "JointReported"    -> P_JointReported(i, o)
+(* a refused configuration has no behaviour to judge: only ConfigAccepted fails *)
+Viol(i, o) == IF o.cfg # "ok" THEN {"ConfigAccepted"} ELSE {n \in PredNames : ~Holds(n, i, o)}
+Prop(i, o) == Viol(i, o) = {}
+
+(* exact agreement with a rule output (drift otherwise); the order of the   *)
+(* entries of checks that run concurrently is not fixed                     *)
+Proj(e) == [m |-> e.m, v |-> e.v, a |-> e.a, b |-> e.b]
+SameOut(i, o, r) ==
+  /\ o.cfg = r.cfg /\ o.stage = r.stage /\ o.class = r.class /\ o.code = r.code /\ o.enh = r.enh
+  /\ LET oa == [n \in DOMAIN o.ar |-> Proj(o.ar[n])] IN
+       IF IsJoint(i) THEN BagEq(oa, r.ar) ELSE oa = r.ar
+Explains(devSets, i, o) == {D \in devSets : SameOut(i, o, RuleD(D, i))}
+
+-----------------------------------------------------------------------------
+(* Input tables *)
+SpfRow(sub, rh, act, early, sender, dm, place, conn) ==
+  [tab |-> "spf", sub |-> sub, res |-> rh[1], how |-> rh[2], act |-> act, early |-> early,
+   sender |-> sender, dm |-> dm, place |-> place, conn |-> conn]
+
+(* (a) every outcome x every action x enforce_early x null / non-null sender x DMARC situation *)
+InSpfMain ==
+  \E rh \in ResHow, act \in Acts, early \in {"default", "no", "yes"}, sender \in {"plain", "null"},
+     dm \in DmKinds :
+    in = SpfRow("main", rh, act, early, sender, dm, "global", "tcp4")
+(* (b) spellings of the MAIL FROM domain *)
+InSpfSender ==
+  \E rh \in ResHow, act \in {"quarantine", "reject"}, early \in {"no", "yes"}, sender \in {"upper", "idn"},
+     dm \in {"norecord", "reject"} :
+    in = SpfRow("sender", rh, act, early, sender, dm, "global", "tcp4")
+(* (c) where the check is configured *)
+InSpfPlace ==
+  \E res \in {"pass", "fail", "temperror"}, act \in {"quarantine", "reject", "reject4"}, early \in {"no", "yes"},
+     place \in {"source", "dest"}, dm \in {"norecord", "reject"}, sender \in {"plain", "null"} :
+    in = SpfRow("place", <<res, CHOOSE h \in HowOf(res) : TRUE>>, act, early, sender, dm, place, "tcp4")
+(* (d) kinds of connection *)
+InSpfConn ==
+  \E res \in {"pass", "fail", "permerror"}, act \in {"default", "quarantine", "reject"}, early \in {"no", "yes"},
+     conn \in {"tcp6", "unix", "local"} :
+    in = SpfRow("conn", <<res, IF res = "pass" THEN "ip" ELSE CHOOSE h \in HowOf(res) : TRUE>>, act, early,
+                "plain", "norecord", "global", conn)
+
+DkimRow(sub, sigs, act, fo, req, subset) ==
+  [tab |-> "dkim", sub |-> sub, sigs |-> sigs, act |-> act, failopen |-> fo, req |-> req, subset |-> subset]
+SigsOf(ks) == [n \in DOMAIN ks |-> [k |-> KindSeq[ks[n]], d |-> SigDoms[n]]]
+FailOpens == {"default", "no", "yes"}
+Reqs == {"default", "from", "fst"}
+(* (e) no signature / one signature: every action *)
+InDkimOne ==
+  \E ks \in {<<>>} \cup {<<a>> : a \in 1..NKinds}, act \in Acts, fo \in FailOpens, req \in Reqs :
+    in = DkimRow("one", SigsOf(ks), act, fo, req, "absent")
+(* (f) every ordered pair of signatures *)
+InDkimTwo ==
+  MaxSig >= 2 /\
+  \E a \in 1..NKinds, b \in 1..NKinds, act \in {"default", "quarantine", "reject", "reject4"},
+     fo \in FailOpens, req \in Reqs :
+    in = DkimRow("two", SigsOf(<<a, b>>), act, fo, req, "absent")
+(* (g) every multiset of three, in an order chosen by a hash of the row *)
+Rotate(s, k) == [j \in 1..Len(s) |-> s[((j - 1 + k) % Len(s)) + 1]]
+InDkimThree ==
+  MaxSig >= 3 /\
+  \E a \in 1..NKinds, b \in 1..NKinds, c \in 1..NKinds, act \in {"quarantine", "reject"},
+     fo \in FailOpens, req \in Reqs :
+    /\ a <= b /\ b <= c
+    /\ in = DkimRow("three", SigsOf(Rotate(<<a, b, c>>, a + 2 * b + 3 * c)), act, fo, req, "absent")
+(* (h) the configuration block of dkim.md as printed there *)
+InDkimDoc ==
+  \E ks \in {<<>>, <<1>>, <<NKinds>>, <<6>>}, act \in {"default", "reject"} :
+    in = DkimRow("doc", SigsOf(ks), act, "no", "fst", "no")
+
+(* (i) the composition *)
+InJoint ==
+  \E res \in SpfResults, act \in {"ignore", "quarantine", "reject"}, early \in {"no", "yes"},
+     sender \in {"plain", "null"}, al \in BOOLEAN, dm \in {"norecord", "none", "quarantine", "reject"},
+     dk \in {"nosig", "pass_al", "pass_un", "bad_al", "temp_al"} :
+    in = [tab |-> "joint", sub |-> "joint", res |-> res,
+          how |-> IF res = "pass" THEN "ip" ELSE CHOOSE h \in HowOf(res) : TRUE,
+          act |-> act, early |-> early, sender |-> sender, al |-> al, dm |-> dm, dk |-> dk]
+
+-----------------------------------------------------------------------------
+(* The world of a row: what the harness builds (configuration, message, DNS) *)
+Dir(d, a) == [d |-> d, a |-> a]
+SpfDirName(r) == CASE r = "none" -> "none_action" [] r = "neutral" -> "neutral_action"
+                   [] r = "fail" -> "fail_action" [] r = "softfail" -> "softfail_action"
+                   [] r = "permerror" -> "permerr_action" [] r = "temperror" -> "temperr_action"
+SpfResSeq == <<"none", "neutral", "fail", "softfail", "permerror", "temperror">>
+(* the action the row is about for its outcome (absent when "default"); a   *)
+(* decoy of another class for every other outcome                           *)
+SpfCfg(i) ==
+  LET eff == SpfEff({}, i)
+      one(r) == IF r = i.res THEN (IF i.act = "default" THEN <<>> ELSE <<Dir(SpfDirName(r), ActArgs(i.act))>>)
+                ELSE <<Dir(SpfDirName(r), ActArgs(Decoy(eff)))>>
+      RECURSIVE all(_)
+      all(n) == IF n > Len(SpfResSeq) THEN <<>> ELSE one(SpfResSeq[n]) \o all(n + 1)
+  IN (IF i.early = "default" THEN <<>> ELSE <<Dir("enforce_early", <<i.early>>)>>) \o all(1)
+DkimCfg(i) ==
+  LET eff == DkimEff(i)
+      mine == IF i.act = "default" THEN <<>> ELSE
+                <<Dir(IF i.sigs = <<>> THEN "no_sig_action" ELSE "broken_sig_action", ActArgs(i.act))>>
+      other == <<Dir(IF i.sigs = <<>> THEN "broken_sig_action" ELSE "no_sig_action", ActArgs(Decoy(eff)))>>
+  IN (IF i.req = "default" THEN <<>> ELSE <<Dir("required_fields", ReqArgs(i.req))>>)
+     \o (IF i.subset = "absent" THEN <<>> ELSE <<Dir("allow_body_subset", <<i.subset>>)>>)
+     \o mine \o other
+     \o (IF i.failopen = "default" THEN <<>> ELSE <<Dir("fail_open", <<i.failopen>>)>>)
+
+Z(name, err, txt) == [name |-> name, err |-> err, txt |-> txt]
+SpfTxt(res, how, conn) ==
+  CASE res = "pass" /\ how = "ip" -> (IF conn = "tcp6" THEN <<"v=spf1 ip6:2001:db8::10 -all">>
+                                      ELSE <<"v=spf1 ip4:192.0.2.10 -all">>)
+    [] res = "pass"     -> <<"v=spf1 +all">>
+    [] res = "fail" /\ how = "ipmiss" -> <<"v=spf1 ip4:198.51.100.1 -all">>
+    [] res = "fail"     -> <<"v=spf1 -all">>
+    [] res = "softfail" -> <<"v=spf1 ~all">>
+    [] res = "neutral" /\ how = "fallthrough" -> <<"v=spf1 ip4:198.51.100.1">>
+    [] res = "neutral"  -> <<"v=spf1 ?all">>
+    [] res = "none" /\ how = "othertxt" -> <<"google-site-verification=x03">>
+    [] res = "none"     -> <<>>
+    [] res = "permerror" /\ how = "two" -> <<"v=spf1 -all", "v=spf1 +all">>
+    [] res = "permerror" -> <<"v=spf1 foo:bar -all">>
+    [] res = "temperror" /\ how = "include" -> <<"v=spf1 include:inc.example -all">>
+    [] OTHER -> <<>>
+(* the record of the evaluated identity; a record with the opposite outcome *)
+(* at the identity that must NOT be evaluated                               *)
+SpfZone(i) ==
+  LET id == SpfIdentity(i.sender) IN
+    (IF i.res = "none" /\ i.how = "nxdomain" THEN <<>>
+     ELSE IF i.res = "temperror" /\ i.how = "servfail" THEN <<Z(id, "servfail", <<>>)>>
+     ELSE <<Z(id, "", SpfTxt(i.res, i.how, i.conn))>>)
+    \o (IF i.res = "temperror" /\ i.how = "include" THEN <<Z("inc.example", "servfail", <<>>)>> ELSE <<>>)
+    \o (IF i.sender = "null" THEN <<>>
+        ELSE <<Z(Helo, "", IF i.res = "pass" THEN <<"v=spf1 -all">> ELSE <<"v=spf1 +all">>)>>)
+DmarcZone(dm) ==
+  IF dm = "servfail" THEN <<Z("_dmarc.from.example", "servfail", <<>>)>>
+  ELSE IF DmarcTxt(dm) = <<>> THEN <<>> ELSE <<Z("_dmarc.from.example", "", DmarcTxt(dm))>>
+KeyName(s) == s.k \o "._domainkey." \o s.d
+KeyZone(sigs) ==
+  LET one(s) == CASE s.k \in {"nokey", "malformed"} -> <<>>
+                  [] s.k = "temp"     -> <<Z(KeyName(s), "servfail", <<>>)>>
+                  [] s.k = "revoked"  -> <<Z(KeyName(s), "", <<"KEY:revoked">>)>>
+                  [] s.k = "shortkey" -> <<Z(KeyName(s), "", <<"KEY:short">>)>>
+                  [] s.k = "ed"       -> <<Z(KeyName(s), "", <<"KEY:ed">>)>>
+                  [] OTHER            -> <<Z(KeyName(s), "", <<"KEY:rsa">>)>>
+      RECURSIVE all(_)
+      all(n) == IF n > Len(sigs) THEN <<>> ELSE one(sigs[n]) \o all(n + 1)
+  IN all(1)
+
+Chk(mod, place, cfg) == [mod |-> mod, place |-> place, cfg |-> cfg]
+WorldOf(i) ==
+  CASE i.tab = "spf" ->
+        [checks |-> <<Chk("spf", i.place, SpfCfg(i))>>, pdmarc |-> FALSE, conn |-> i.conn, helo |-> Helo,
+         sender |-> SenderAddr(i.sender), utf8 |-> i.sender = "idn",
+         from |-> [shape |-> FromShape(i.dm), dom |-> FromDomOfDm(i.dm)],
+         sigs |-> <<>>, zone |-> SpfZone(i) \o DmarcZone(i.dm)]
+    [] i.tab = "dkim" ->
+        [checks |-> <<Chk("dkim", "global", DkimCfg(i))>>, pdmarc |-> FALSE, conn |-> "tcp4", helo |-> Helo,
+         sender |-> SenderAddr("plain"), utf8 |-> FALSE,
+         from |-> [shape |-> "one", dom |-> "from.example"],
+         sigs |-> i.sigs, zone |-> KeyZone(i.sigs)]
+    [] OTHER ->
+        [checks |-> <<Chk("spf", "global", SpfCfg(JSpfView(i))),
+                      Chk("dkim", "global", <<Dir("fail_open", <<"yes">>)>>)>>,
+         pdmarc |-> TRUE, conn |-> "tcp4", helo |-> Helo,
+         sender |-> SenderAddr(i.sender), utf8 |-> FALSE,
+         from |-> [shape |-> "one", dom |-> JFromDom(i)],
+         sigs |-> JSigs(i),
+         zone |-> SpfZone(JSpfView(i)) \o KeyZone(JSigs(i))
+                  \o (IF JFound(i) THEN <<Z("_dmarc." \o JFromDom(i), "", DmarcTxt(i.dm))>> ELSE <<>>)]
+
+-----------------------------------------------------------------------------
+Init == InSpfMain \/ InSpfSender \/ InSpfPlace \/ InSpfConn
+        \/ InDkimOne \/ InDkimTwo \/ InDkimThree \/ InDkimDoc \/ InJoint
+Next == FALSE /\ UNCHANGED in      \* one state per input (CHECK_DEADLOCK FALSE)
+Spec == Init /\ [][Next]_vars
+
+(* TLC: the documented rule satisfies the property on every row *)
+RuleSatisfiesProp == Prop(in, Rule(in))
+(* theorems about the rule *)
+(* a valid signature is the only way to a DKIM pass entry, and the check    *)
+(* never takes an action against a message that has one and no lookup error *)
+DkimPassIffGood ==
+  in.tab = "dkim" =>
+    \A n \in DOMAIN in.sigs :
+      (Rule(in).class \in {"accept", "quarantine"}) =>
+        (Rule(in).ar[n].v = "pass" <=> Good(in.sigs[n].k, in.req))
+(* the check never acts on an SPF pass and always acts as configured before the body when early *)
+SpfEarlyNeverBody ==
+  (in.tab = "spf" /\ Early(in) /\ Rule(in).class \in Rejects) => Rule(in).stage # "body"
+(* as-is configuration: the code's deviations must violate the property *)
+AsIsSatisfiesProp == Prop(in, AsIs(in))
+
+Emit == Gen => PrintT(<<"ROW", ToJson([in |-> in, exp |-> Rule(in), world |-> WorldOf(in)])>>)
 =============================================================================
